@@ -78,6 +78,8 @@ fn model(depth: usize, only_prog: Option<usize>) -> Model {
     for l in [
         "A=5", "A$=\"q\"", "B(2)=7", "DIM A(3)", "DEFINT A-Z", "DEFSTR S", "READ X", "RESTORE 40", "FOR I=1 TO 9",
         "GOSUB 40", "GOSUB 200", "K=3:W=9", "X%=30000", "PRINT \"col\";", "CLEAR", "CONT",
+        // direct lines that fail to compile / to link, and edits of the listing
+        "PRINT )", "GOTO 500", "5 REM", "20",
     ] {
         acts.push((l.to_string(), Act::Line(l)));
     }
@@ -188,11 +190,12 @@ impl Model {
                 Act::Run => {
                     // INPUT replies must be the same on both sides
                     s.replies = replies().into_iter().collect();
+                    let now = s.listing_text();
                     s.enter("RUN");
                     let got = render_codes(&s.take());
                     if last {
                         let mut f = new_session();
-                        for l in &listing {
+                        for l in &now {
                             f.enter(l);
                         }
                         f.take();
@@ -209,13 +212,14 @@ impl Model {
                 }
                 Act::ClearProbe | Act::NewProbe => {
                     let is_new = *act == Act::NewProbe;
+                    let now = s.listing_text();
                     s.enter(if is_new { "NEW" } else { "CLEAR" });
                     s.take();
                     let got = probe_transcript(&mut s);
                     if last {
                         let mut f = new_session();
                         if !is_new {
-                            for l in &listing {
+                            for l in &now {
                                 f.enter(l);
                             }
                         }
@@ -249,10 +253,10 @@ impl Check for C12 {
     fn meta(&self, tier: Tier) -> Meta {
         Meta {
             bound: format!(
-                "12 programs (variables, arrays, DEFtype, DEF FN, DATA/RESTORE, FOR/GOSUB/WHILE, INPUT, STOP inside loops and subroutines, runtime errors) x all histories of up to {} actions from 22 (16 direct lines incl. assignments, DIM, DEFINT/DEFSTR, READ, RESTORE, FOR, GOSUB into STOP, CLEAR, CONT; RUN interrupted after 3, 9, 20 instructions; RUN; CLEAR+probes; NEW+probes), deduplicated by the full state digest",
+                "12 programs (variables, arrays, DEFtype, DEF FN, DATA/RESTORE, FOR/GOSUB/WHILE, INPUT, STOP inside loops and subroutines, runtime errors) x all histories of up to {} actions from 26 (18 direct lines incl. assignments, DIM, DEFINT/DEFSTR, READ, RESTORE, FOR, GOSUB into STOP, CLEAR, CONT, one that fails to compile and one that fails to link; two edits of the listing; RUN interrupted after 3, 9, 20 instructions; RUN; CLEAR+probes; NEW+probes), deduplicated by the full state digest",
                 tier.pick(4, 6)
             ),
-            rule: "a case is one transition; judged transitions are RUN (compared with RUN in a fresh interpreter holding the same listing) and CLEAR / NEW followed by 9 probe lines (compared with the probes in a fresh interpreter); distinct_nontrivial = distinct (program, fresh transcript)".into(),
+            rule: "a case is one transition; judged transitions are RUN (compared with RUN in a fresh interpreter holding the current listing) and CLEAR / NEW followed by 9 probe lines (compared with the probes in a fresh interpreter); distinct_nontrivial = distinct (program, fresh transcript)".into(),
             states_note: "states = distinct full-state digests; transitions = actions executed".into(),
             assumptions: vec![
                 "TRON is not among the items the property enumerates (it persists across RUN by design) and is only used inside one program that switches it off again".into(),
